@@ -752,3 +752,11 @@ package zygo
 //@ func (*SexpLazyArg).Force
 //@ C16 ensures memo-hit: old(lazy != nil && lazy.Forced) ==> r1 == nil && r0 == old(lazy.Value) && lazy.Forced && lazy.Value == old(lazy.Value)
 //@ C16 ensures memoises: r1 == nil && lazy != nil ==> lazy.Forced && lazy.Value == r0
+
+// ===========================================================================
+// C13  parsing depends only on the text (no history)
+// ===========================================================================
+// Every lexer field that lexing ever reads is put back by Reset (the field set
+// is computed from the code on every run); and Reset puts back the values a
+// fresh lexer has.
+//@ resets C13 Lexer | (*Lexer).Reset | (*Lexer).PeekNextToken, (*Lexer).GetNextToken, (*Lexer).LexNextRune, (*Lexer).AddNextStream, (*Lexer).PromoteNextStream | parser
